@@ -7,6 +7,7 @@
 #include "config.h"
 #endif
 #include <stdio.h>
+#include <fcntl.h>
 #include <stdlib.h>
 #include <string.h>
 #include <stdint.h>
@@ -215,12 +216,24 @@ int LLVMFuzzerTestOneInput (const uint8_t *data, size_t size)
 		mpq_QSprob p;
 		m.data = data; m.len = size; m.pos = 0;
 		rd = mpq_QSline_reader_new ((void *) mem_gets, &m);
-		if (sel & 4) { mem = mpq_QSerror_memory_create (1); ec = mpq_QSerror_memory_collector_new (mem); mpq_QSline_reader_set_error_collector (rd, ec); }
+		if (sel & 4) { mem = mpq_QSerror_memory_create ((sel & 8) ? 0 : 1); ec = mpq_QSerror_memory_collector_new (mem); mpq_QSline_reader_set_error_collector (rd, ec); }
 		p = mpq_QSget_prob (rd, "fuzz", (sel & 3) == 1 ? "MPS" : "LP");
 		if (p)
 		{
 			check_problem (p, (sel & 16) && size < 3000 && !long_digit_run (data, size));
 			mpq_QSfree_prob (p);
+		}
+		if (mem)
+		{
+			/* every collected error is printed to a stream of the caller, which has to stay open */
+			static FILE *own; int i = 0, fd; mpq_QSformat_error e;
+			if (!own) own = fopen ("/dev/null", "w");
+			fd = own ? fileno (own) : -1;
+			for (e = mpq_QSerror_memory_get_last_error (mem); own && e && i < 12; e = mpq_QSerror_memory_get_prev_error (e), i++)
+			{
+				mpq_QSerror_print (own, e);
+				if (fcntl (fd, F_GETFD) == -1) { own = 0; fail ("QSerror_print closed the stream of its caller"); }
+			}
 		}
 		mpq_QSline_reader_free (rd);
 		if (ec) mpq_QSerror_collector_free (ec);
